@@ -103,6 +103,19 @@ CHECKS = {
         "results are exact.",
         "DESIGN.md section 6, C17",
     ),
+    "C18": (
+        "property-based testing (Hypothesis): reference ring walk (set-based model) vs dual connectivity, JIT on and off",
+        "Exploration: generated closed and partial meshes (hull triangulations merged into 3..8-gons, Voronoi meshes, lat-lon grids with pole "
+        "fans, prisms/antiprisms/pyramids/cubed spheres, any numbering, planted pole/antimeridian nodes), half of the shards with "
+        "NUMBA_DISABLE_JIT=1. For every node of valence 3..8 the dual face must be, as a cyclic sequence, the faces met when walking around "
+        "the node across shared edges in the faces' own counter-clockwise orientation (members, adjacency and orientation in one relation), "
+        "padded only at the end, with a one-turn geometric winding cross-check; dual nodes must sit at the face centroids; the number of dual "
+        "faces must be the number of nodes with >= 3 faces; on closed meshes face-/node-centred data must come back node-/face-centred, "
+        "unchanged and unpermuted, on an identical dual grid.",
+        "Trusted: vlib/refmodel.dual_ring; centroid = normalised corner mean; meshes judged only when every face is strictly convex and within "
+        "75 degrees of its centroid.",
+        "DESIGN.md section 6, C18",
+    ),
     "C20": (
         "property-based testing (Hypothesis): generated grid pairs vs. definitional equality oracle",
         "Exploration: generated pairs of grids differing in exactly one longitude / latitude / connectivity entry / "
